@@ -1262,6 +1262,17 @@ class Step(Node):
         )
         self.db.executemany("DELETE FROM dynamic_dep WHERE i = ?", ((row[0],) for row in rows))
         self.del_sources([self.graph.node_from_row(i, kind, label) for _, i, label, kind in rows])
+        # The steps producing the dropped inputs lose a consumer,
+        # so their `_implied_need` must be recomputed:
+        # the triggers on `dependency` only flag the two ends of the deleted edge (a file and
+        # this step), and the propagation from this step follows its remaining inputs only.
+        # Without this, an optional producer would stay needed (and never be reverted)
+        # after its only consumer stopped amending its output.
+        self.db.executemany(
+            "UPDATE step SET _check_after = 1 "
+            "WHERE node IN (SELECT source FROM dependency WHERE sink = ?)",
+            ((i,) for _, i, _, kind in rows if kind == "file"),
+        )
 
         # Drop dynamic environment variables.
         self.db.execute("DELETE FROM env_var WHERE node = ? AND dynamic = 1", (self.i,))
